@@ -1098,11 +1098,19 @@ class Molecules:
         **named_exprs: IntoExpr,
     ) -> Self:
         """Return a new instance with updated features."""
-        return self.__class__(
-            self.pos,
-            self.rotator,
-            features=self.features.with_columns(exprs, *more_exprs, **named_exprs),
-        )
+        features = self.features
+        if features.width == 0 and len(self) > 0:
+            # NOTE: a data frame without columns has no height, so that a literal expression
+            # would be evaluated to a single row.
+            _tmp = "__acryo_row_index__"
+            features = (
+                pl.DataFrame({_tmp: np.arange(len(self))})
+                .with_columns(exprs, *more_exprs, **named_exprs)
+                .drop(_tmp)
+            )
+        else:
+            features = features.with_columns(exprs, *more_exprs, **named_exprs)
+        return self.__class__(self.pos, self.rotator, features=features)
 
     def drop_features(self, columns: str | Sequence[str], *more_columns: str) -> Self:
         """Return a new instance with updated features."""
